@@ -127,10 +127,12 @@ Devs(schema, frame) ==
    THEN {"StrictOrderedStageStopsAtFirst"} ELSE {})
   \cup (IF IndexErrorsIdeal(schema, frame) # IndexErrorsByPosition(schema, frame)
         THEN {"IndexFailureCasesByPosition"} ELSE {})
+  \cup (IF ComponentsErrorsWith(schema, frame, TRUE) # ComponentsErrorsWith(schema, frame, FALSE)
+        THEN {"DuplicateNullsNotReported"} ELSE {})
 
 Predict(s) == [kind |-> s.out.kind,
                returned |-> IF s.out.kind = "ok" THEN s.out.returned ELSE [none |-> TRUE],
-               errors |-> IF s.out.kind = "ok" THEN <<>> ELSE s.out.errors,
+               errors |-> IF s.out.kind \in {"SchemaError", "SchemaErrors"} THEN s.out.errors ELSE <<>>,
                input_after |-> s.inp]
 EmitPlain ==
   (st.pc = "done" /\ st.lazy) =>
